@@ -27,7 +27,7 @@ RULE = (
 ASSUMPTIONS = ["predicates are pure functions of the offered node"]
 MUST_SEE = ["skip_self_with_prune", "start_pruned", "prune_not_filter_with_desc", "list_fields", "index_ge_10_match", "xpath_nonempty", "malformed_rejected", "calculate_xpath_nodes", "gather_calls", "two_anywhere_left_steps", "recalculated_after_change"]
 CONFIG = {
-    "quick": {"shards": 16, "small_trees": 40, "exh_n": 4, "large_trees": 15, "xpaths": 40, "watchdog_s": 600},
+    "quick": {"shards": 16, "small_trees": 200, "exh_n": 4, "large_trees": 60, "xpaths": 40, "watchdog_s": 600},
     "thorough": {"shards": 32, "small_trees": 300, "exh_n": 6, "large_trees": 150, "xpaths": 100, "watchdog_s": 3400},
 }
 
